@@ -20,9 +20,11 @@ import (
 	"strings"
 	"time"
 
+	libpeer "github.com/libp2p/go-libp2p/core/peer"
 	"github.com/sourcenetwork/immutable"
 
 	"github.com/sourcenetwork/defradb/client"
+	"github.com/sourcenetwork/defradb/event"
 	netConfig "github.com/sourcenetwork/defradb/net/config"
 	"github.com/sourcenetwork/defradb/node"
 	"github.com/sourcenetwork/lens/host-go/config/model"
@@ -73,7 +75,7 @@ func engRepl(e *Env) {
 	ctx := context.Background()
 	r := NewRng(e.Seed)
 	e.Res.Rule = "event sequences of 6-12 events over {write (create or update of 1-3 documents: register, counter), B down, B up, A restart, add-field patch on A only / on both, P2P collection add / remove}; at least one outage with a write inside; distinct = distinct event sequence; non-trivial = two separate outages, or an A restart while documents are pending, or a patch before a write made during an outage"
-	nScen := 5
+	nScen := 6
 	if e.thorough() {
 		nScen = 40
 	}
@@ -194,7 +196,7 @@ type Other { title: String }`
 		// the first scenario of every run is scripted: two separate outages with a full recovery in between
 		// the second: P2P collection added, schema patched, collection removed, A restarted
 		// the third: A restarted while the replicator is inactive, then a write to a new document
-		scripts := [][]int{{0, 0, 4, 5, 0, 4, 5}, {8, 0, 7, 9, 6, 0}, {0, 4, 6, 0, 0, 5}, {7, 0, 0, 0}, {0, 0, 4, 5, 0}}
+		scripts := [][]int{{0, 0, 4, 5, 0, 4, 5}, {8, 0, 7, 9, 6, 0}, {0, 4, 6, 0, 0, 5}, {7, 0, 0, 0}, {0, 0, 4, 5, 0}, {0, 20}}
 		if si < len(scripts) {
 			script = scripts[si]
 			nEv = len(script)
@@ -235,6 +237,69 @@ type Other { title: String }`
 				if outages >= 1 {
 					nontrivial = nontrivial || outages >= 2
 				}
+			case c == 20:
+				// interrupted first delivery: B receives the head of a commit while A is unreachable, so it can store the
+				// head but not fetch what the head links to; when A is back its retry must still complete the delivery
+				if len(docs) == 0 {
+					break
+				}
+				sub, err := a.x.n.DB.Events().Subscribe(event.UpdateName)
+				if err != nil {
+					panic(err)
+				}
+				b.close(ctx)
+				bUp = false
+				outages++
+				desc = append(desc, "B: down")
+				coq = append(coq, "Down")
+				write()
+				var head *event.Update
+				deadline := time.After(2 * time.Second)
+			collect:
+				for {
+					select {
+					case m := <-sub.Message():
+						if u, ok := m.Data.(event.Update); ok && u.DocID != "" {
+							head = &u
+						}
+					case <-deadline:
+						break collect
+					case <-time.After(200 * time.Millisecond):
+						if head != nil {
+							break collect
+						}
+					}
+				}
+				a.x.n.DB.Events().Unsubscribe(sub)
+				aID := a.x.n.Peer.PeerInfo().ID
+				time.Sleep(1500 * time.Millisecond) // let the failed push be recorded for retry
+				a.close(ctx)
+				if err := b.open(ctx); err != nil {
+					e.violate("harness-repl", "reopen B: "+err.Error(), replay)
+					bad = true
+					break
+				}
+				bUp = true
+				if head != nil {
+					type pusher interface {
+						VerifPushLog(ctx context.Context, from libpeer.ID, docID string, cid []byte, collectionID string, block []byte) error
+					}
+					if pp, ok := b.x.n.Peer.(pusher); ok {
+						err := pp.VerifPushLog(ctx, aID, head.DocID, head.Cid.Bytes(), head.CollectionID, head.Block)
+						desc = append(desc, fmt.Sprintf("A: down; B: up; the head %s is delivered to B while A is unreachable -> %v", head.Cid, err != nil))
+						e.count("interrupted_deliveries")
+					} else {
+						e.violate("harness-repl", "VerifPushLog hook missing", replay)
+					}
+				}
+				if err := a.open(ctx); err != nil {
+					e.violate("restart-open-failed", "reopen A: "+err.Error(), replay)
+					bad = true
+					break
+				}
+				desc = append(desc, "A: up")
+				coq = append(coq, "ARestart", "Up")
+				nontrivial = true
 			case c == 6:
 				pending := !bUp && writesInOutage > 0
 				a.close(ctx)
